@@ -14,8 +14,9 @@ PARALLEL = True
 BATCH = 1200
 BUDGET_S = {'quick': 70, 'thorough': 900}
 RULE = ('JSON: dictionaries with int (incl. negative, zero) and non-integer-like str top-level keys, nested '
-        'values {None, bool, int, float, str, list, nested dict, NumPy scalars, ndarrays of every numeric dtype '
-        'incl. bool/float16/complex/big-endian, rank 0..3, empty, C / Fortran / transposed / strided / reversed / '
+        'values {None, bool, int, float, str, list, nested dict, NumPy scalars (incl. long double and complex ones, which '
+        'have no JSON number form), ndarrays of every numeric dtype incl. bool/float16/complex/big-endian/long double/'
+        'complex long double, rank 0..3, empty, C / Fortran / transposed / strided / reversed / '
         'offset views (sent to the model with their real strides and offset), 1-D of 9/10/11 items, NaN inside '
         'arrays}; str values, nested keys and top-level keys over EVERY class of Python str code point (ASCII controls '
         'incl. NUL/DEL, quote and backslash, Latin-1, BMP incl. U+2028 / noncharacters, astral, and LONE SURROGATES - '
@@ -28,7 +29,9 @@ RULE = ('JSON: dictionaries with int (incl. negative, zero) and non-integer-like
         'quotes, a tab in .tsv files) with missing fields and fully empty rows, both delimiters, random integers, '
         'floats (float / float32 / float64; exact ties of %.4f included) and random string cells that int()/float() '
         'reject incl. tabs, commas, quotes; two-column cluster tables with negative and large ids and mixed value '
-        'kinds; the number grammar of _try_make_number on random strings; the csv module on random records; '
+        'kinds; the number grammar of _try_make_number on random strings incl. the Unicode decimal digits and white space '
+        'int() / float() convert first (the tables of the model compared with the real int() over ALL code points: op uniclass); '
+        'look-alikes int() rejects (superscripts, circled digits, zero-width space) inside string cells; the csv module on random records; '
         'parameter files with scalars, lists and tuples, quotes and backslashes inside lists, upper-case names. '
         'non-trivial = at least one array or nested container (JSON) / at least two rows (tables)')
 ASSUMPTIONS = ['json / base64 / repr of floats are transport: exercised through the real libraries here, hypotheses in '
@@ -41,11 +44,21 @@ ASSUMPTIONS = ['json / base64 / repr of floats are transport: exercised through 
                'with the json library as save_json / load_json use it on every jsonstr case; the file text itself is a tally',
                'strings travel to the Lean driver through an injective escape (tok) of the code points a Lean String / '
                'the JSON pipe cannot carry (surrogates, astral); the model treats str values as opaque',
+               'nested dictionaries have str keys only: the statement speaks of integer TOP-LEVEL keys (JSON object keys are '
+               'strings, and sort_keys=True raises TypeError on a nested dictionary mixing int and str keys): nested integer keys '
+               'are outside the claim and never generated',
+               'write_tsv is called with n_significant_figures in {default, 1, 2, 3, 4, 6, 10}; 0 is outside (no decimal point is '
+               'written: the cell IS an integer literal); exclude_fields is outside (the rows are then meant to come back '
+               'different); None / bool values of two-column tables are outside the value list of the statement (integer, float, '
+               'non-numeric string); a np.float32 parameter is generated when it holds the same number as the float (str() of '
+               'np.float32(0.1) is the literal 0.1, another number: outside "reads back equal" by construction of the file format)',
                'table and parameter files are text in the locale encoding by construction (write_tsv / write_python under '
                'LC_ALL=C raise UnicodeEncodeError on a non-ASCII cell): the locale is varied for the JSON layer only, '
                'whose file text is pure ASCII whatever the strings']
 DTYPES = ['bool', 'int8', 'uint8', 'int16', 'int32', 'int64', 'uint64', 'float16', 'float32', 'float64',
-          'complex64', 'complex128', '>f4', '>i2', '<u4']
+          'complex64', 'complex128', '>f4', '>i2', '<u4', 'longdouble', 'clongdouble']
+# NumPy scalar types without a JSON number form: .item() is a Python complex, or the NumPy scalar itself (long double)
+EXOTIC_SCALARS = ['longdouble', 'clongdouble', 'complex64', 'complex128']
 
 
 # ---- strings ---------------------------------------------------------------------------------
@@ -118,11 +131,14 @@ def build(v):
     if t == 'float':
         return float(v['f'])
     if t == 'np':
+        if v['dt'] in EXOTIC_SCALARS:
+            x = getattr(np, v['dt'])(v['v'])
+            return x / 3 if v.get('third') else x       # a third: not representable as a double (long double keeps more bits)
         return getattr(np, v['dt'])(v['v'])
     if t == 'arr':
         n = int(np.prod(v['shape'])) if v['shape'] else 1
         base = (np.arange(n) % 7 - 3)
-        a = base.astype(v['dtype']) if not v['dtype'].startswith('complex') else (base + 1j * (base + 1)).astype(v['dtype'])
+        a = base.astype(v['dtype']) if np.dtype(v['dtype']).kind != 'c' else (base + 1j * (base + 1)).astype(v['dtype'])
         if v.get('nan') and a.dtype.kind in 'fc' and n:
             a[0] = np.nan
         a = a.reshape(v['shape'])
@@ -173,6 +189,11 @@ def to_lean(v, mem):
     t = v['t']
     if t == 'float':
         return dict(t='float', v=abs(hash(repr(v['f']))) % 100000)
+    if t == 'np' and v['dt'] in EXOTIC_SCALARS:
+        x = build(v)
+        k = len(mem)
+        mem.append([_r(x)])
+        return dict(t='npx', dtype=str(x.dtype), v=(k + 1) * 1000000)
     if t == 'np':
         if v['dt'].startswith(('float',)):
             return dict(t='float', v=abs(hash(repr(float(v['v'])))) % 100000)
@@ -263,9 +284,12 @@ def same(a, b):
         return isinstance(b, np.ndarray) and b.dtype == a.dtype and b.shape == a.shape and \
             np.array_equal(a, b, equal_nan=a.dtype.kind in 'fc')
     if isinstance(a, np.generic):
+        if isinstance(a.item(), (np.generic, complex)):
+            # no JSON number holds it: preserved = the same dtype and value (a 0-d array or a NumPy scalar)
+            return isinstance(b, (np.ndarray, np.generic)) and b.shape == () and b.dtype == a.dtype and bool(b == a)
         return same(a.item(), b)
     if isinstance(a, float):
-        return isinstance(b, float) and (a == b or (math.isnan(a) and math.isnan(b)))
+        return isinstance(b, float) and ((a == b and math.copysign(1, a) == math.copysign(1, b)) or (math.isnan(a) and math.isnan(b)))
     if isinstance(a, (list, tuple)):
         return isinstance(b, list) and len(a) == len(b) and all(same(x, y) for x, y in zip(a, b))
     if isinstance(a, dict):
@@ -430,7 +454,10 @@ def impl(case):
             rows = [{f: (c['int'] if 'int' in c else (npf(c['float']) if 'float' in c else c['text'])) for f, c in r}
                     for r in case['rows']]
             p = d / ('t.' + case['ext'])
-            M.write_tsv(p, rows, first_field=case.get('first'))
+            if case.get('nsf'):
+                M.write_tsv(p, rows, first_field=case.get('first'), n_significant_figures=case['nsf'])
+            else:
+                M.write_tsv(p, rows, first_field=case.get('first'))
             with p.open(newline='') as fh:          # the text as written (no newline translation)
                 text = fh.read()
             back = M.read_tsv(p)
@@ -450,6 +477,19 @@ def impl(case):
             return dict(text=text, field=f, back=[[k, py_enc(v)] for k, v in back.items()], meta=meta)
         if op == 'number':
             return [py_enc(M._try_make_number(x)) for x in case['strings']]
+        if op == 'uniclass':
+            # which non-ASCII characters the real _try_make_number takes for a decimal digit (alone: an int) / for white
+            # space (in front of '7': 7), over ALL code points
+            digits, spaces = [], []
+            for c in range(128, 0x110000):
+                if 0xD800 <= c <= 0xDFFF:
+                    continue
+                v = M._try_make_number(chr(c))
+                if type(v) is int:
+                    digits.append([c, v])
+                elif M._try_make_number(chr(c) + '7') == 7:
+                    spaces.append(c)
+            return dict(digits=digits, spaces=spaces)
         if op == 'csv':
             # the csv module called the way _misc.py calls it (transport contract of the model)
             import csv
@@ -471,6 +511,8 @@ def impl(case):
                     return np.bool_(v)
                 if case.get('npvalues') and isinstance(v, int):
                     return np.int32(v) if case['npvalues'] == 32 and abs(v) < 2 ** 31 else np.int64(v) if abs(v) < 2 ** 63 else v
+                if case.get('npvalues') == 32 and isinstance(v, float) and float(np.float32(v)) == v:
+                    return np.float32(v)        # a float32 holding the same number: str() writes a literal of that number
                 if case.get('npvalues') and isinstance(v, float):
                     return np.float64(v)
                 return v
@@ -510,13 +552,16 @@ def model_query(case, impl_res):
     if case['op'] == 'tsv':
         npf = {'32': np.float32, '64': np.float64}.get(str(case.get('npfloat')), float)
         rows = [[[f, ({'float': dbl(npf(c['float']))} if 'float' in c else c)] for f, c in r] for r in case['rows']]
-        return dict(p=PID, op='table', rows=rows, first=case.get('first'), tsv=case['ext'] == 'tsv', impl_text=text)
+        return dict(p=PID, op='table', rows=rows, first=case.get('first'), tsv=case['ext'] == 'tsv', impl_text=text,
+                    nsf=case.get('nsf') or 4)
     if case['op'] == 'simple':
         data = [[int(k), ({'int': v} if type(v) is int else ({'lit': repr(v)} if type(v) is float else {'text': v}))]
                 for k, v in case['data']]
         return dict(p=PID, op='simple', field=case['field'], data=data, tsv=case['ext'] == 'tsv', impl_text=text)
     if case['op'] == 'number':
         return dict(p=PID, op='number', strings=case['strings'])
+    if case['op'] == 'uniclass':
+        return dict(p=PID, op='uniclass')
     if case['op'] == 'csv':
         return dict(p=PID, op='csv', rows=case['rows'], tsv=case['tsv'], impl_text=text)
     if case['op'] == 'params':
@@ -647,6 +692,12 @@ def judge(case, impl_res, ans):
             bad = [(x, r, e) for x, r, e in zip(case['strings'], ok, exp) if r != e]
             return 'CORR: _try_make_number differs from the model on %s' % bad[:3]
         return None
+    if op == 'uniclass':
+        if ok['digits'] != m['digits'] or ok['spaces'] != m['spaces']:
+            dd = [x for x in ok['digits'] if x not in m['digits']] + [x for x in m['digits'] if x not in ok['digits']]
+            ss = sorted(set(ok['spaces']) ^ set(m['spaces']))
+            return 'CORR: the Unicode digit / white-space tables of the model differ from int() / float(): digits %s spaces %s' % (dd[:5], ss[:5])
+        return None
     if op == 'csv':
         if m['back'] != case['rows']:
             return 'MACHINERY: csv model does not round-trip its own text (contradicts the theorem)'
@@ -668,13 +719,22 @@ def nontrivial(case):
         return any(v['t'] in ('arr', 'list', 'dict') for k, v in case['dict'])
     if case['op'] == 'json_env':
         return any(v['t'] in ('arr', 'list', 'dict') for d in case['dicts'] for k, v in d)
-    if case['op'] in ('number', 'jsonstr'):
+    if case['op'] in ('number', 'jsonstr', 'uniclass'):
         return True
     return len(case.get('rows', case.get('data', []))) >= 2
 
 
 def tally(rep, case, impl_res, ans):
     rep.count('op:' + case['op'])
+    if case['op'] == 'number':
+        for x in case['strings']:
+            if any(ord(c) > 127 and (c.isdecimal() or c.isspace()) for c in x):
+                rep.count('number:unicode_digit_or_space')
+                if isinstance(impl_res.get('ok'), list) and impl_res['ok'][case['strings'].index(x)][0] != 'str':
+                    rep.count('number:unicode_numeric_literal')
+    if case['op'] == 'uniclass' and isinstance(impl_res.get('ok'), dict):
+        rep.count('uniclass:decimal_digits', len(impl_res['ok']['digits']))
+        rep.count('uniclass:white_space', len(impl_res['ok']['spaces']))
     if case.get('stale') and case['op'] in ('json', 'tsv', 'simple', 'params'):
         rep.count('path_held_other_contents_read_before')
     if case['op'] == 'jsonstr' and isinstance(impl_res.get('ok'), list) and isinstance(ans.get('ok'), dict):
@@ -715,6 +775,12 @@ def tally(rep, case, impl_res, ans):
 
             def walk(x):
                 rep.count(pre + 'value:' + x['t'])
+                if x['t'] == 'np':
+                    rep.count(pre + 'np_scalar:' + x['dt'])
+                if x['t'] == 'float' and isinstance(x['f'], str):
+                    rep.count(pre + 'float:' + x['f'])
+                if x['t'] == 'arr' and x['dtype'] in ('longdouble', 'clongdouble'):
+                    rep.count(pre + 'arr_dtype:' + x['dtype'])
                 if x['t'] == 'arr':
                     rep.count(pre + 'arr_rank:%d' % len(x['shape']))
                     rep.count(pre + 'arr_layout:' + x.get('layout', 'C'))
@@ -729,6 +795,8 @@ def tally(rep, case, impl_res, ans):
     elif case['op'] in ('tsv', 'simple', 'csv', 'params'):
         if case['op'] != 'params':
             rep.count('ext:' + case.get('ext', 'tsv' if case.get('tsv') else 'csv'))
+        if case['op'] == 'tsv':
+            rep.count('n_significant_figures:%s' % (case.get('nsf') or 'default'))
         # mechanism-level tie, never an alarm: is the written file the text the model writes, character by character?
         if isinstance(impl_res.get('ok'), dict) and isinstance(ans.get('ok'), dict) and 'text' in ans['ok']:
             rep.count('file_text_equals_model' if impl_res['ok'].get('text') == ans['ok']['text']
@@ -745,6 +813,8 @@ def classify(case, impl_res, ans, why):
 
 
 def shrink(case):
+    if case['op'] == 'uniclass':
+        return
     key = {'json': 'dict', 'json_env': 'dicts', 'jsonstr': 'strings', 'tsv': 'rows', 'simple': 'data', 'params': 'data', 'number': 'strings', 'csv': 'rows'}[case['op']]
     v = case[key]
     if case['op'] == 'json_env' and len(v) > 2:
@@ -768,7 +838,13 @@ NUMBERISH = ['1e', '--', 'e5', '+3', ' 2', '1_0', '1.', '.5', 'nan', 'inf', '-In
              '1d5', '0b1', '1j', '-.5', '+.5e+2', '5.', '5.e', '1e-0', '00.0', '-00', '1_.5', '._5', 'Inf', 'iNfInItY',
              'infinity_', 'na n', '1e5 ', ' \t-12\r\n', '12abc', 'abc12', '1,5', '1\t2', '"5"', "'5'", '1e400', '-1e-400',
              '123456789012345678901234567890', '0.1e1', '1.0000', '-0.0000', '\x0b3', '3\x0b\x0c', '3-', '3+4', '3e4e5', '..1']
-CELL_ALPHABET = list('abcxyzQ 09.-+e_,\t"\'#') + ['é', 'ß', 'ab', 'inf', 'nan', '1', '""', ', ']
+CELL_ALPHABET = list('abcxyzQ 09.-+e_,\t"\'#') + ['é', 'ß', 'ab', 'inf', 'nan', '1', '""', ', '] + \
+    ['\u0663', '\uff11', '\xa0', '\u2003', '\xb2', '\u2460', '\u200b']      # Unicode digits / spaces int() accepts, and look-alikes it rejects
+# strings with the Unicode decimal digits and white space that int() / float() convert before parsing
+NUMBERISH_U = ['\u0661\u0662', '\uff11.\uff15', '1\u0662', '\xa012', '12\x85', '\u20031e5\u3000', '\u06f1_\u06f2', '\xb2', '\u2460', '\u0b72',
+               '\U0001d7ce', '\u3007', '-\u0967', '1e\u0663', '\u2002inf', '\u200b12', '\u180e12', '\ufeff12', 'na\u0274', '\x1c12', '12\x1f',
+               '\u0661.\u0662e-\u0663', '\U0001e950\U0001e951', '\u0e51\u0e52\u0e53', '+\uff10', '\u0661 \u0662', '\u2028-5\u2029', '\u202f1_0\u205f',
+               '\u1680.5', '\uff0d1', '\uff11\uff45\uff15', 'in\uff46', '\u0660x', '\u0661,\u0662', '\U0001fbf0\U0001fbf9', '\ua9d0']
 
 
 def rand_text(rng, nonempty=True):
@@ -814,11 +890,13 @@ def rand_value(rng, depth=0):
     if t == 'int':
         return dict(t='int', v=rng.pick([0, -1, 7, 10 ** 12, -3, 2 ** 53 + 1, -(2 ** 63), 2 ** 64 - 1]))
     if t == 'float':
-        return dict(t='float', f=rng.pick([0.5, -2.25, 1e-9, 3.0, 1e300]))
+        return dict(t='float', f=rng.pick([0.5, -2.25, 1e-9, 3.0, 1e300, 0.1, 5e-324, 'nan', 'inf', '-inf', '-0.0']))
     if t == 'str':
         return dict(t='str', v=rng.pick(TEXTS + ['', '12', '__ndarray_']) if rng.random() < .5 else rand_ustr(rng))
     if t == 'np':
-        dt = rng.pick(['int32', 'int64', 'uint8', 'float32', 'float64', 'int16'])
+        dt = rng.pick(['int32', 'int64', 'uint8', 'float32', 'float64', 'int16', 'float16', 'uint64'] + EXOTIC_SCALARS)
+        if dt in EXOTIC_SCALARS:
+            return dict(t='np', dt=dt, v=rng.pick([0, 3, -2, 100]), third=rng.random() < .5)
         return dict(t='np', dt=dt, v=rng.pick([0, 3, -2, 100]) if not dt.startswith('u') else rng.pick([0, 3, 200]))
     if t == 'arr':
         rank = rng.pick([0, 1, 1, 1, 2, 3])
@@ -862,6 +940,10 @@ def gen(tier, rng):
                                                    [{'str': 'k'}, dict(t='int', v=1)]])
     for key in ({'int': 0}, {'int': -1}, {'int': -12}, {'int': 10 ** 9}, {'str': 'abc'}, {'str': '-x'}, {'str': '1.5'}, {'str': ''}, {'str': '-'}):
         yield dict(p=PID, op='json', dict=[[key, dict(t='str', v='x')]])
+    for dt in EXOTIC_SCALARS + ['float16', 'uint64', 'float32']:
+        for third in (False, True):
+            sc = dict(t='np', dt=dt, v=3 if dt == 'uint64' else -2, third=third)
+            yield dict(p=PID, op='json', dict=[[{'str': 's'}, sc], [{'int': 2}, dict(t='list', v=[sc, dict(t='dict', v=[['x', sc]])])]])
     # every code point of every class (and the composed words) alone, at every place where a str can stand
     probes = [c for k in sorted(CP) for c in CP[k]] + [w for w in WORDS if not joins(w)]
     for s in probes:
@@ -869,7 +951,7 @@ def gen(tier, rng):
     # the same probes and random dictionaries saved and loaded by a child process under a non-UTF-8 locale
     # (one interpreter start per case: spread over the stream so that the worker pool runs them side by side)
     envs = [dict(p=PID, op='json_env', env='C', dicts=[str_probe(s) for s in probes[i:i + 16]]) for i in range(0, len(probes), 16)]
-    envs += [dict(p=PID, op='json_env', env='C', dicts=[rand_entries(rng) for _ in range(20)]) for _ in range(8 if q else 150)]
+    envs += [dict(p=PID, op='json_env', env='C', dicts=[rand_entries(rng) for _ in range(16)]) for _ in range(6 if q else 150)]
     # the text layer (Model/C18j): single strings, those with a high surrogate directly before a low one included (the
     # model says what the json library makes of them)
     cps = lambda t: [ord(c) for c in t]
@@ -889,10 +971,14 @@ def gen(tier, rng):
         yield dict(p=PID, op='json', dict=rand_entries(rng), stale=rng.random() < .3)
     # the number grammar of _try_make_number
     yield dict(p=PID, op='number', strings=NUMBERISH)
+    yield dict(p=PID, op='number', strings=NUMBERISH_U)
+    yield dict(p=PID, op='uniclass')
     for _ in range(60 if q else 2000):
         yield dict(p=PID, op='number',
-                   strings=[''.join(rng.pick(list('0123456789') * 2 + list('+-._eE ') + ['inf', 'nan', 'a', '\t', 'in', 'INF', 'x', '__'])
-                                    for _ in range(rng.randrange(0, 7))) for _ in range(25)])
+                   strings=[''.join(rng.pick(list('0123456789') * 2 + list('+-._eE ') + ['inf', 'nan', 'a', '\t', 'in', 'INF', 'x', '__'] +
+                                             (['\u0663', '\uff11', '\u0967', '\U0001d7d2', '\xa0', '\u2003', '\x85', '\xb2', '\u200b', '\uff0e', '\x1c']
+                                              if uni else []))
+                                    for _ in range(rng.randrange(0, 7))) for uni in [rng.random() < .5] for _ in range(25)])
     # the csv transport contract (the csv module called as _misc.py calls it)
     for _ in range(150 if q else 3000):
         rows = [[rand_text(rng, nonempty=False) for _ in range(rng.randrange(0, 4))] for _ in range(rng.randrange(0, 5))]
@@ -925,7 +1011,10 @@ def gen(tier, rng):
         npfloat = rng.pick([0, 0, 32, 64])
         if npfloat == 32 and any('float' in c and abs(c['float']) > 3e38 for r in rows for _, c in r):
             npfloat = 0         # would be inf as a float32: finite floats only
-        yield dict(p=PID, op='tsv', rows=rows, ext=ext, first=rng.pick([None, fields[-1], 'absent']), npfloat=npfloat, stale=rng.random() < .3)
+        # n_significant_figures: the default, or 1..10 passed by the caller (0 is outside: '%.0f' writes no point, the file
+        # then holds an integer literal - hypothesis n != 0 of cluster_table_roundtrip; real code: 2.5 comes back as int 2)
+        yield dict(p=PID, op='tsv', rows=rows, ext=ext, first=rng.pick([None, fields[-1], 'absent']), npfloat=npfloat, stale=rng.random() < .3,
+                   nsf=rng.pick([None, None, 1, 2, 3, 4, 6, 10]))
     for _ in range(300 if q else 5000):
         ids = rng.sample(list(range(0, 500)) + [-1, -20, 10 ** 6, 2 ** 40], rng.randrange(0, 6))
         data = []
